@@ -45,6 +45,10 @@ fn tok_profile(profile: &str, seed: u64, n: usize, out: &mut dyn Write) {
         let mut drng = rng.fork();
         if profile == "c10" {
             cfg.cover_unk = drng.chance(9, 10);
+            // a third of the dictionaries go through from_readers_with_bigram_info (raw or dual connector)
+            if drng.chance(1, 3) {
+                cfg.kind = Some(1 + drng.below(2) as u8);
+            }
         }
         let mut d = gen_dict(&mut drng, &cfg);
         let mut corruption = String::new();
@@ -259,12 +263,17 @@ fn tok_profile(profile: &str, seed: u64, n: usize, out: &mut dyn Write) {
 /// Single-edit corruptions of valid definition files (stream `tok c10`).
 fn corrupt(rng: &mut Rng, d: &mut gen::DictSrc) -> String {
     let which = rng.below(4);
-    let name = ["lex", "matrix", "char", "unk"][which];
+    // for raw / dual dictionaries the connector slot is one of the three bigram files
+    let bigram_file = if d.kind != 0 { 1 + rng.below(3) } else { 0 };
+    let name = if which == 1 && d.kind != 0 { ["", "bigram.right", "bigram.left", "bigram.cost"][bigram_file] } else { ["lex", "matrix", "char", "unk"][which] };
     let (nl, nr) = (d.num_left, d.num_right);
-    let file: &mut Vec<u8> = match which {
-        0 => &mut d.lex,
-        1 => &mut d.matrix,
-        2 => &mut d.chardef,
+    let file: &mut Vec<u8> = match (which, bigram_file) {
+        (0, _) => &mut d.lex,
+        (1, 0) => &mut d.matrix,
+        (1, 1) => &mut d.right,
+        (1, 2) => &mut d.left,
+        (1, _) => &mut d.cost,
+        (2, _) => &mut d.chardef,
         _ => &mut d.unk,
     };
     let mut bytes = std::mem::take(file);
@@ -414,9 +423,9 @@ fn corrupt(rng: &mut Rng, d: &mut gen::DictSrc) -> String {
             bytes.extend_from_slice(extra.as_bytes());
             label = "chardef-targeted";
         }
-        14 if which == 2 => {
-            // many categories
-            let n = *rng.pick(&[17usize, 18, 19, 30, 40, 260]);
+        14 | 15 | 16 if which == 2 => {
+            // many categories (the limit is 18: both sides of it are drawn often)
+            let n = *rng.pick(&[17usize, 18, 18, 19, 19, 20, 30, 40, 260]);
             let mut s = String::new();
             for i in 0..n {
                 s.push_str(&format!("M{i} 0 1 0\n"));
